@@ -34,6 +34,7 @@ struct World {
     Ctx &c; Rng &r; File f; std::string path;
     std::vector<Cont> conts; std::map<std::string, std::vector<NI>> shadow; std::map<std::string, std::vector<std::string>> graveyard;
     long serial = 0; std::vector<std::string> focus;
+    Group gC; Tag tC; MultiTag mC; DataArray aC;   // the handles returned by the create calls (first session only): members are ADDED through them, everything is READ through looked-up handles
     explicit World(Ctx &cx) : c(cx), r(cx.rng) {}
     std::string fresh_name() { for (;;) { std::string n = gen_name(r, serial++, 45); if (n == ".") continue; return n; } }
 
@@ -97,43 +98,59 @@ struct World {
         }
         // ---- membership containers: children are arrays / sources of block B0 picked by name (the "create" argument is the name of an existing entity)
         Tag T = B.getTag("T0"); MultiTag M = B.getMultiTag("M0"); Group G = B.getGroup("G0"); DataArray A = B.getDataArray("pos");
+        Tag TW = tC ? tC : T; MultiTag MW = mC ? mC : M; Group GW = gC ? gC : G; DataArray AW = aC ? aC : A;   // writers
         { Cont k; k.key = "tag[T0].references"; k.kind = "tag.references"; k.membership = true;
           k.count = [T] { return T.referenceCount(); }; k.at = [T](ndsize_t i) { return ni(T.getReference((size_t)i)); };
           k.get = [T](const std::string &q, NI &o) { return opt_ni(T.getReference(q), o); }; k.has = [T](const std::string &q) { return T.hasReference(q); };
           k.has_handle = [T](ndsize_t i) { return T.hasReference(T.getReference((size_t)i)); }; k.list = [T] { std::vector<NI> v; for (auto &e : T.references()) v.push_back(ni(e)); return v; };
-          k.create = [T, B](const std::string &n) mutable { DataArray a = B.getDataArray(n); if (n.size() % 2) T.addReference(a); else T.addReference(a.id()); return a.id(); };
+          k.create = [TW, B](const std::string &n) mutable { DataArray a = B.getDataArray(n); if (n.size() % 2) TW.addReference(a); else TW.addReference(a.id()); return a.id(); };
           k.remove = [T, B](const NI &x, int how) mutable { return how == 0 ? T.removeReference(x.first) : how == 1 ? T.removeReference(x.second) : T.removeReference(B.getDataArray(x.second)); }; k.set_all = [T, B](const std::vector<std::string> &n) mutable { std::vector<DataArray> v; for (auto &x : n) v.push_back(B.getDataArray(x)); T.references(v); }; conts.push_back(k); }
         { Cont k; k.key = "multitag[M0].references"; k.kind = "multitag.references"; k.membership = true;
           k.count = [M] { return M.referenceCount(); }; k.at = [M](ndsize_t i) { return ni(M.getReference((size_t)i)); };
           k.get = [M](const std::string &q, NI &o) { return opt_ni(M.getReference(q), o); }; k.has = [M](const std::string &q) { return M.hasReference(q); };
           k.has_handle = [M](ndsize_t i) { return M.hasReference(M.getReference((size_t)i)); }; k.list = [M] { std::vector<NI> v; for (auto &e : M.references()) v.push_back(ni(e)); return v; };
-          k.create = [M, B](const std::string &n) mutable { DataArray a = B.getDataArray(n); M.addReference(a); return a.id(); };
+          k.create = [MW, B](const std::string &n) mutable { DataArray a = B.getDataArray(n); MW.addReference(a); return a.id(); };
           k.remove = [M, B](const NI &x, int how) mutable { return how == 0 ? M.removeReference(x.first) : how == 1 ? M.removeReference(x.second) : M.removeReference(B.getDataArray(x.second)); }; k.set_all = [M, B](const std::vector<std::string> &n) mutable { std::vector<DataArray> v; for (auto &x : n) v.push_back(B.getDataArray(x)); M.references(v); }; conts.push_back(k); }
         { Cont k; k.key = "group[G0].dataArrays"; k.kind = "group.dataArrays"; k.membership = true;
           k.count = [G] { return G.dataArrayCount(); }; k.at = [G](ndsize_t i) { return ni(G.getDataArray((size_t)i)); };
           k.get = [G](const std::string &q, NI &o) { return opt_ni(G.getDataArray(q), o); }; k.has = [G](const std::string &q) { return G.hasDataArray(q); };
           k.has_handle = [G](ndsize_t i) { return G.hasDataArray(G.getDataArray((size_t)i)); }; k.list = [G] { std::vector<NI> v; for (auto &e : G.dataArrays()) v.push_back(ni(e)); return v; };
-          k.create = [G, B](const std::string &n) mutable { DataArray a = B.getDataArray(n); if (n.size() % 2) G.addDataArray(a); else G.addDataArray(a.id()); return a.id(); };
+          k.create = [GW, B](const std::string &n) mutable { DataArray a = B.getDataArray(n); if (n.size() % 2) GW.addDataArray(a); else GW.addDataArray(a.id()); return a.id(); };
           k.remove = [G, B](const NI &x, int how) mutable { return how == 0 ? G.removeDataArray(x.first) : how == 1 ? G.removeDataArray(x.second) : G.removeDataArray(B.getDataArray(x.second)); }; k.set_all = [G, B](const std::vector<std::string> &n) mutable { std::vector<DataArray> v; for (auto &x : n) v.push_back(B.getDataArray(x)); G.dataArrays(v); }; conts.push_back(k); }
         { Cont k; k.key = "group[G0].tags"; k.kind = "group.tags"; k.membership = true;
           k.count = [G] { return G.tagCount(); }; k.at = [G](ndsize_t i) { return ni(G.getTag((size_t)i)); };
           k.get = [G](const std::string &q, NI &o) { return opt_ni(G.getTag(q), o); }; k.has = [G](const std::string &q) { return G.hasTag(q); };
           k.has_handle = [G](ndsize_t i) { return G.hasTag(G.getTag((size_t)i)); }; k.list = [G] { std::vector<NI> v; for (auto &e : G.tags()) v.push_back(ni(e)); return v; };
-          k.create = [G, B](const std::string &n) mutable { Tag a = B.getTag(n); G.addTag(a); return a.id(); };
+          k.create = [GW, B](const std::string &n) mutable { Tag a = B.getTag(n); GW.addTag(a); return a.id(); };
           k.remove = [G, B](const NI &x, int how) mutable { return how == 0 ? G.removeTag(x.first) : how == 1 ? G.removeTag(x.second) : G.removeTag(B.getTag(x.second)); }; k.set_all = [G, B](const std::vector<std::string> &n) mutable { std::vector<Tag> v; for (auto &x : n) v.push_back(B.getTag(x)); G.tags(v); }; conts.push_back(k); }
+        { Cont k; k.key = "group[G0].dataFrames"; k.kind = "group.dataFrames"; k.membership = true;
+          k.count = [G] { return G.dataFrameCount(); }; k.at = [G](ndsize_t i) { return ni(G.getDataFrame(i)); };
+          k.get = [G](const std::string &q, NI &o) { return opt_ni(G.getDataFrame(q), o); }; k.has = [G](const std::string &q) { return G.hasDataFrame(q); };
+          k.has_handle = [G](ndsize_t i) { return G.hasDataFrame(G.getDataFrame(i)); }; k.list = [G] { std::vector<NI> v; for (auto &e : G.dataFrames(util::AcceptAll<DataFrame>())) v.push_back(ni(e)); return v; };
+          k.create = [GW, B](const std::string &n) mutable { DataFrame a = B.getDataFrame(n); if (n.size() % 2) GW.addDataFrame(a); else GW.addDataFrame(a.id()); return a.id(); };
+          k.remove = [G, B](const NI &x, int how) mutable { return how == 0 ? G.removeDataFrame(x.first) : how == 1 ? G.removeDataFrame(x.second) : G.removeDataFrame(B.getDataFrame(x.second)); };
+          k.set_all = [G, B](const std::vector<std::string> &n) mutable { std::vector<DataFrame> v; for (auto &x : n) v.push_back(B.getDataFrame(x)); G.dataFrames(v); }; conts.push_back(k); }
+        { Cont k; k.key = "group[G0].multiTags"; k.kind = "group.multiTags"; k.membership = true;
+          k.count = [G] { return G.multiTagCount(); }; k.at = [G](ndsize_t i) { return ni(G.getMultiTag((size_t)i)); };
+          k.get = [G](const std::string &q, NI &o) { return opt_ni(G.getMultiTag(q), o); }; k.has = [G](const std::string &q) { return G.hasMultiTag(q); };
+          k.has_handle = [G](ndsize_t i) { return G.hasMultiTag(G.getMultiTag((size_t)i)); }; k.list = [G] { std::vector<NI> v; for (auto &e : G.multiTags(util::AcceptAll<MultiTag>())) v.push_back(ni(e)); return v; };
+          k.create = [GW, B](const std::string &n) mutable { MultiTag a = B.getMultiTag(n); GW.addMultiTag(a); return a.id(); };
+          k.remove = [G, B](const NI &x, int how) mutable { return how == 0 ? G.removeMultiTag(x.first) : how == 1 ? G.removeMultiTag(x.second) : G.removeMultiTag(B.getMultiTag(x.second)); };
+          k.set_all = [G, B](const std::vector<std::string> &n) mutable { std::vector<MultiTag> v; for (auto &x : n) v.push_back(B.getMultiTag(x)); G.multiTags(v); }; conts.push_back(k); }
         { Cont k; k.key = "array[pos].sources"; k.kind = "entity.sources"; k.membership = true; k.by_name = false;
           k.count = [A] { return A.sourceCount(); }; k.at = [A](ndsize_t i) { return ni(A.getSource((size_t)i)); };
           k.get = [A](const std::string &q, NI &o) { return opt_ni(A.getSource(q), o); }; k.has = [A](const std::string &q) { return A.hasSource(q); };
           k.has_handle = [A](ndsize_t i) { return A.hasSource(A.getSource((size_t)i)); }; k.list = [A] { std::vector<NI> v; for (auto &e : A.sources()) v.push_back(ni(e)); return v; };
-          k.create = [A, B](const std::string &n) mutable { Source s = B.getSource(n); if (n.size() % 2) A.addSource(s); else A.addSource(s.id()); return s.id(); };
+          k.create = [AW, B](const std::string &n) mutable { Source s = B.getSource(n); if (n.size() % 2) AW.addSource(s); else AW.addSource(s.id()); return s.id(); };
           k.remove = [A, B](const NI &x, int how) mutable { return how == 1 ? A.removeSource(x.second) : A.removeSource(B.getSource(x.second)); }; k.set_all = [A, B](const std::vector<std::string> &n) mutable { std::vector<Source> v; for (auto &x : n) v.push_back(B.getSource(x)); A.sources(v); }; conts.push_back(k); }
         { Cont k; k.key = "tag[T0].features"; k.kind = "tag.features"; k.membership = false; k.named = false; k.by_name = false;
           k.count = [T] { return T.featureCount(); }; k.at = [T](ndsize_t i) { Feature x = T.getFeature(i); return NI(x.id(), x.id()); };
           k.get = [T](const std::string &q, NI &o) { Feature x = T.getFeature(q); if (!x) return false; o = NI(x.id(), x.id()); return true; }; k.has = [T](const std::string &q) { return T.hasFeature(q); };
           k.has_handle = [T](ndsize_t i) { return T.hasFeature(T.getFeature(i)); }; k.list = [T] { std::vector<NI> v; for (auto &e : T.features()) v.push_back(NI(e.id(), e.id())); return v; };
-          k.create = [T, A](const std::string &) mutable { return T.createFeature(A, LinkType::Untagged).id(); };
+          k.create = [TW, A](const std::string &) mutable { return TW.createFeature(A, LinkType::Untagged).id(); };
           k.remove = [T](const NI &x, int how) mutable { return how == 2 ? T.deleteFeature(T.getFeature(x.second)) : T.deleteFeature(x.second); }; conts.push_back(k); }
     }
+    static std::string owner_of(const std::string &kind) { return kind == "group.tags" ? "block[B0].tags" : kind == "entity.sources" ? "block[B0].sources" : kind == "group.dataFrames" ? "block[B0].dataFrames" : kind == "group.multiTags" ? "block[B0].multiTags" : "block[B0].dataArrays"; }
     static std::string sibling(const std::string &key) { if (key == "section[S0].sections") return "section[S0/c].sections"; if (key == "section[S0/c].sections") return "section[S0].sections"; if (key == "source[src0].sources") return "source[src0/c].sources"; if (key == "source[src0/c].sources") return "source[src0].sources"; return ""; }
     Cont *find(const std::string &key) { for (auto &k : conts) if (k.key == key) return &k; return nullptr; }
 
@@ -143,7 +160,7 @@ struct World {
         Section s = f.createSection("S0", "t"); s.createSection("c", "t");
         Source so = b.createSource("src0", "t"); so.createSource("c", "t");
         DataArray pos = b.createDataArray("pos", "t", DataType::Double, NDSize{3});
-        b.createTag("T0", "t", {1.0}); b.createMultiTag("M0", "t", pos); b.createGroup("G0", "t");
+        tC = b.createTag("T0", "t", {1.0}); mC = b.createMultiTag("M0", "t", pos); gC = b.createGroup("G0", "t"); aC = pos;
         bind();
         for (auto &k : conts) shadow[k.key] = k.list();   // the skeleton children are the first entries, in creation order
     }
@@ -202,7 +219,7 @@ struct World {
         if (act == 0 && sh.size() < 9) {           // create (or add a member)
             std::string nm;
             if (k.membership) {   // pick an existing entity of the owner container that is not yet a member
-                std::string owner = k.kind == "group.tags" ? "block[B0].tags" : k.kind == "entity.sources" ? "block[B0].sources" : "block[B0].dataArrays";
+                std::string owner = owner_of(k.kind);
                 std::vector<NI> cand; for (auto &x : shadow[owner]) { bool in = false; for (auto &y : sh) if (y.second == x.second) in = true; if (!in) cand.push_back(x); }
                 if (cand.empty()) return; nm = cand[r.u(cand.size())].first;
             } else {
@@ -227,7 +244,7 @@ struct World {
             if (ok) { sh.erase(sh.begin() + (long)i); if (k.named) graveyard[k.key].push_back(x.first); graveyard[k.key].push_back(x.second); if (!k.membership) forget_everywhere(x.second); }
             c.count("deletes");
         } else if (k.membership && k.set_all && r.chance(0.6)) {   // replace all members by a vector: the members are then exactly the vector, in its order
-            std::string owner = k.kind == "group.tags" ? "block[B0].tags" : k.kind == "entity.sources" ? "block[B0].sources" : "block[B0].dataArrays";
+            std::string owner = owner_of(k.kind);
             std::vector<NI> pick; for (auto &x : shadow[owner]) if (r.chance(0.5) && pick.size() < 6) pick.push_back(x); for (size_t i = pick.size(); i > 1; i--) std::swap(pick[i - 1], pick[r.u(i)]);
             if (!sh.empty() && !pick.empty() && r.chance(0.5)) { bool in = false; for (auto &y : pick) if (y.second == sh[0].second) in = true; if (!in) pick.push_back(sh[0]); }   // overlap with the current members
             std::vector<std::string> names; for (auto &x : pick) names.push_back(x.first);
@@ -251,7 +268,7 @@ struct World {
     }
     void reopen() {
         c.op("close+reopen");
-        conts.clear(); f.close();
+        conts.clear(); gC = nix::none; tC = nix::none; mC = nix::none; aC = nix::none; f.close();
         f = File::open(path, r.chance(0.5) ? FileMode::ReadWrite : FileMode::ReadOnly);
         bind(); monitor_all("after reopen");
         if (f.fileMode() == FileMode::ReadOnly) { conts.clear(); f.close(); f = File::open(path, FileMode::ReadWrite); bind(); }
@@ -266,7 +283,7 @@ void run_case(Ctx &c) {
     w.reopen(); w.monitor_all("final");
     for (auto &k : w.conts) c.fp(k.kind + str(w.shadow[k.key].size()));
     c.nontrivial = c.checks > 50;
-    w.conts.clear(); w.f.close();
+    w.conts.clear(); w.gC = nix::none; w.tC = nix::none; w.mC = nix::none; w.aC = nix::none; w.f.close();
 }
 long ncases(const std::string &tier) { return tier == "quick" ? 300 : 8000; }
 std::vector<std::string> witnesses() { return {"d3-duplicate-dataframe", "d13-uuid-named-reference"}; }
@@ -282,7 +299,7 @@ void run_witness(Ctx &c, const std::string &name) {
         Cont &arrays = *w.find("block[B0].dataArrays"); std::string nm = "01234567-89ab-cdef-0123-456789abcdef"; std::string id = arrays.create(nm); w.shadow[arrays.key].emplace_back(nm, id);
         for (const char *ck : {"tag[T0].references", "multitag[M0].references", "group[G0].dataArrays"}) { Cont &k = *w.find(ck); c.op(std::string("create ") + k.kind + " | uuid-shaped name"); k.create(nm); w.shadow[k.key].emplace_back(nm, id); w.monitor(k, "uuid-named member"); }
     }
-    c.nontrivial = true; w.conts.clear(); w.f.close();
+    c.nontrivial = true; w.conts.clear(); w.gC = nix::none; w.tC = nix::none; w.mC = nix::none; w.aC = nix::none; w.f.close();
 }
 Reg reg({"C03", ncases, run_case, witnesses, run_witness, 120});
 }  // namespace
